@@ -502,7 +502,7 @@ def run(rep, tier, seed):
     driver = fw.build_model_driver()
     first_cmds = []
     rng = random.Random(seed)
-    nschemas, npol = (16, 40) if tier == "quick" else (160, 80)
+    nschemas, npol = (12, 40) if tier == "quick" else (160, 80)   # quick sized by CPU time (see notes/C03.md)
     stats = new_stats()
     samples, distinct, feats = [], set(), {}
     cases = hand_cases(rng)
